@@ -438,8 +438,13 @@ def relabel(g, rng, mode):
             ["\ufb01n", "fin"], ["e\u0301", "\u00e9"],
             ["n_1", "n-1", "n.1", "n1"],
             ["", " "],
+            # names spelt like combinations of other names of the graph
+            ["a", "a->b", "b->c", "c", "b"],
+            ["p", "p_q", "q_r", "r", "q"],
+            ["x", "x:y", "y:z", "z", "y"],
+            ["m", "m.n", "n.o", "o", "n"],
         ]
-        fam = [x for f in rng.sample(families, rng.randint(1, 3)) for x in f]
+        fam = list(dict.fromkeys(x for f in rng.sample(families, rng.randint(1, 3)) for x in f))
         rng.shuffle(fam)
         new = [f"q{i}" for i in range(len(names))]
         k = rng.randint(2, max(2, min(len(fam), len(names))))
